@@ -1,15 +1,17 @@
-(* C07 — Rendering directly equals rendering via encode+decode; selectors agree.  PARTIAL.
+(* C07 — Rendering directly equals rendering via encode+decode; selectors agree.  PARTIAL (no bound on the effect of quantisation on pixels).
    Proved (proofs/SelProofs.v): for every call sequence, after every prefix, an Encoder that accepted the
    calls holds the same CSEL and NSEL as a Renderer fed the same calls (both follow the decoding machine's
    selector updates, sel_step), its read-back methods return them, and the generator's gradient helpers —
    which depend on the destination only through those read-backs — therefore emit the same calls or the
    same error into either destination.  DestinationLogger forwards every call unchanged (checked by the
    correspondence run through the logger).
-   Not yet a theorem: "same rasteriser activity up to quantisation", which is the round-trip theorem of
-   C01 composed with the determinism of the Renderer; the correspondence run compares the two pipelines'
-   rasteriser logs on every case (identical for exactly representable input). *)
+   via_bytes: a Renderer fed by decoding an Encoder's bytes ends in exactly the state of a Renderer fed the
+   program's written-and-read-back form (C01's expect) — so the two pipelines differ by the number
+   quantisation of C01/C08 and nothing else; how far the rasteriser activity moves under that quantisation
+   is not bounded by a theorem (the correspondence run compares the two pipelines' rasteriser logs:
+   identical for exactly representable input). *)
 From Coq Require Import ZArith Bool List.
-From IVG Require Import SF NumCodec Color Calls Encoder Render Arc RenderProofs Generator SelProofs.
+From IVG Require Import SF NumCodec Color Calls Decoder Encoder Render Arc RenderProofs Generator SelProofs RoundTrip MetaRT Transcode.
 Import ListNotations.
 Local Open Scope Z_scope.
 
@@ -35,6 +37,14 @@ Theorem helpers_same_calls : forall e s sh sp stops tr, esel e = rsel s ->
   set_gradient (e_csel e) (e_nsel e) sh sp stops tr = set_gradient (r_csel s) (r_nsel s) sh sp stops tr.
 Proof. exact SelProofs.helpers_same_calls. Qed.
 Print Assumptions helpers_same_calls.
+
+Theorem via_bytes : forall e0 vb pal body s,
+  wf_vb vb -> viewbox_invalid (qvb vb) = false -> wf_pal pal -> wf_acts false body ->
+  exists b, snd (enc_bytes (fst (enc_run e0 (ACall (CReset vb pal) :: body)))) = BytesOk b /\
+            snd (decode_calls [] b) = Done /\
+            rrun32 s (fst (decode_calls [] b)) = rrun32 s (CReset (m_vb (meta_of vb pal)) pal :: expect false false body).
+Proof. exact Transcode.via_bytes. Qed.
+Print Assumptions via_bytes.
 
 (* the failing history of the repaired defect: SetCSel 63 then 12 incrementing writes *)
 Example ex_wrap :
